@@ -120,7 +120,19 @@ func sameArray(a, b any) bool      { return true } // a is b extended in place: 
 func suffixOf(a, b any) bool { return true }
 
 // offsetIn: index of sub's first element within whole (they share a backing array).
-func offsetIn(sub, whole any) int { return 0 }
+func offsetIn(sub, whole any) int {
+	// executable reading (used when a clause is replayed on the real code): distance between the
+	// first elements, in elements
+	vs, vw := reflect.ValueOf(sub), reflect.ValueOf(whole)
+	if vs.Kind() != reflect.Slice || vw.Kind() != reflect.Slice {
+		return 0
+	}
+	sz := vs.Type().Elem().Size()
+	if sz == 0 {
+		return 0
+	}
+	return int((vs.Pointer() - vw.Pointer()) / sz)
+}
 
 // viewOf: b's content is exactly s[p:p+len(b)] (b comes from converting s and re-slicing).
 func viewOf(b []byte, s string, p int) bool {
